@@ -143,6 +143,11 @@ def core_case(rng, mode, n_ops=None):
             c.ops.append("ivstate")
         elif mode != "ofb":
             c.ops.append("getpos" if rng.random() < 0.5 else "rem")
+    if rng.random() < 0.25:
+        # `try_apply_keystream_partial` (consumes the core; the harness continues with a core re-created from the exported state)
+        L = rng.choice([0, 1, bs - 1, bs, bs + 1, w * bs + 1, rng.randrange(0, (2 * w + 2) * bs + 1)])
+        c.ops.append(f"partial {hx(rb(rng, L))}" if rng.random() < 0.6 else f"partialb {hx(rb(rng, L))} {hx(rb_nz(rng, L))}")
+        c.ops.append("ksblock")
     c.ops.append("ivstate")
     return c
 
@@ -550,6 +555,24 @@ def run_C13(ctx):
                 il = rng.choice([0, 1, bs // 2, bs - 1, bs, bs + 1, 2 * bs]) if not mode.startswith("ecb") else 0
                 c.ops.append(f"newslice {kl} {il}")
             cases.append(c)
+    # cores: the consuming `try_apply_keystream_partial` at and next to the end of the keystream — Ok or Err, never a panic, and a
+    # rejected call leaves the caller's buffer as it was (the harness reports `errmod` otherwise)
+    partial_cases = []
+    for mode in list(CTR_FLAVORS) + ["belt"]:
+        for _ in range(ctx.n(10, 120)):
+            bs, w = pick_matrix(rng, mode)
+            key = rb(rng, 16)
+            iv, cls = stream_iv(rng, mode, bs, key)
+            limb = limit_blocks(mode)
+            q = rng.randrange(0, 2 * w + 3)
+            c = Case("core", mode, bs, w, key, iv, cls_kind="core-partial-limit")
+            c.ops.append(f"setpos {limb - q}")
+            nfull = rng.choice([q, q, max(q - 1, 0), q + 1, rng.randrange(0, 2 * w + 3)])
+            L = nfull * bs + rng.choice([0, 1, bs - 1, rng.randrange(0, bs)])
+            c.ops.append(f"partial {hx(rb(rng, L))}" if rng.random() < 0.5 else f"partialb {hx(rb(rng, L))} {hx(rb_nz(rng, L))}")
+            c.ops.append("rem")
+            partial_cases.append(c)
+    cases += partial_cases
     # block modes: unequal b2b, padded decrypt of a non-multiple, slice constructors, zero-length messages
     for mode in BLOCK_MODES:
         for _ in range(ctx.n(12, 150)):
